@@ -1,5 +1,199 @@
-"""C14 line assembly: NUM obligations (filled in once sa/num.py exists)."""
+"""C14 line assembly: NUM obligations on aws_format_standard_log_line and its caller (DESIGN.md section 4, C14 LINE).
+
+For ALL formatted lengths (every possible (v)snprintf result, truncated or not) and all buffer sizes:
+  LINE/bound       every (v)snprintf destination window, the timestamp window and the final newline / terminator stores lie
+                   inside the total_length bytes of the line buffer;
+  LINE/contiguous  after each (v)snprintf + advance the index is exactly on that write's terminator (start + min(result,
+                   window-1)): the text so far is contiguous and the next write (or the newline) overwrites the terminator,
+                   so the line contains no NUL and is not stepped past its end;
+  LINE/reported    amount_written == index of the newline + 1 <= total_length;
+  LINE/room        the caller hands over a buffer of at least total_length bytes.
+"""
+from sa import rules as RU
+from sa.awslib import AwsHooks, in_bounds
+from sa.bounds import access_sites, addr_size
+from sa.num import Num, Poly, Limit, State, entails
+from sa.rules import where
+
+FILE = "source/log_formatter.c"
+F = "aws_format_standard_log_line"
+
+
+class LineHooks(AwsHooks):
+    def entry(self, num, st):
+        if num.fn.name != F:
+            return
+        p = num.fn.params[0]
+        fd = num.read({"k": "var", "n": p["n"], "sc": "param", "t": p["t"], "id": -1}, st)
+        base = num.base_of(st, fd)
+        buf = num.field(st, base + "log_line_buffer", "aws_logging_standard_formatting_data", "log_line_buffer")
+        tot = num.field(st, base + "total_length", "aws_logging_standard_formatting_data", "total_length")
+        st.extent[list(buf.t)[0][0]] = tot
+        st.add(Poly.const(1) - buf)
+        st.add(tot - 2 ** 32)  # the caller computes total_length from ints (checked at the call: LINE/room)
+
+    def call(self, num, st, e, args):
+        c = e.get("callee") or ""
+        if c in ("snprintf", "vsnprintf"):
+            fmt = RU.uncast(num.fn, e["a"][2]) if len(e["a"]) > 2 else None
+            while fmt is not None and fmt["k"] in ("decay", "cast"):
+                fmt = num.fn.d(fmt["a"][0])
+            if fmt is not None and fmt["k"] == "str" and "%" not in fmt["v"] and len(e["a"]) == 3:
+                r = Poly.const(len(fmt["v"]))  # no conversions: the result is the literal's length
+            else:
+                r = Poly.atom(num.fresh(st, "printed", None, (-1, 2 ** 31 - 1)))
+            num.cell_store(st, args[0])
+            st.notes["last_write"] = (args[0], args[1], r, e.get("loc", [0])[0])
+            return r
+        if c == "aws_date_time_to_utc_time_str" and len(args) >= 3 and args[2] is not None:
+            base = self._cbase(num, st, e, 2, args)
+            ln = num.field(st, base + "len", "aws_byte_buf", "len")
+            cap = num.field(st, base + "capacity", "aws_byte_buf", "capacity")
+            outs = []
+            s1 = st.copy()
+            nl = Poly.atom(num.fresh(s1, "timestamp_len", None, (0, 2 ** 63)))
+            s1.add(ln - nl)
+            s1.add(nl - cap)
+            s1.env[base + "len"] = nl
+            s1.notes.pop("last_write", None)
+            num.cell_store(s1, s1.env.get(base + "buffer"))
+            s1.vals[e["id"]] = Poly.const(0)
+            outs.append(s1)
+            s2 = st.copy()
+            s2.vals[e["id"]] = Poly.const(-1)
+            outs.append(s2)
+            return outs
+        if c in ("aws_log_level_to_string", "aws_thread_id_t_to_string"):
+            num.havoc_call(e, st)
+            outs = []
+            for rv in (0, -1):
+                s = st.copy()
+                s.vals[e["id"]] = Poly.const(rv)
+                outs.append(s)
+            return outs
+        if c in ("aws_date_time_init_now", "aws_thread_current_thread_id"):
+            num.havoc_call(e, st)
+            t = num.ty(e)
+            return Poly.atom(num.fresh(st, c, t)) if ("w" in t or t.get("ptr")) else None
+        return AwsHooks.call(self, num, st, e, args)
 
 
 def line_assembly(ctx, R, P):
-    return
+    f = P.fn(F)
+    if not R.require(f is not None, "%s not found" % F):
+        return
+    R.fn(f)
+    hooks = LineHooks()
+    num = Num(f, P, hooks, max_paths=40000)
+    sites = access_sites(f)
+    adv = []
+    for b in f.blocks.values():
+        for el in b.elems:
+            if el["k"] == "bin" and el["op"] in ("=", "+=") and f.show(f.d(el["a"][0])) == "current_index":
+                adv.append(el)
+    rets = [x for b in f.blocks.values() for x in b.elems if x["k"] == "ret"]
+    R.require(len(adv) >= 6, "only %d index updates found in %s" % (len(adv), F))
+    try:
+        sts = num.states_at({s[0] for s in sites} | {r["id"] for r in rets}, after_ids={a["id"] for a in adv})
+    except Limit as ex:
+        R.broken("NUM trace limit in %s: %s" % (F, ex))
+        return
+    n = 0
+    for eid, kind, nd in sites:
+        txt = f.show(nd)
+        if not ("log_line_buffer" in txt or (kind == "mem" and nd.get("callee") in ("snprintf", "vsnprintf"))):
+            continue
+        ok, det, cnt = True, "", 0
+        for st in sts.get(eid, []):
+            s2 = st.copy()
+            for (D, sz, mode) in addr_size(num, s2, kind, nd):
+                cnt += 1
+                r = in_bounds(s2, D, sz)
+                if r[0] != "ok":
+                    ok, det = False, r[1] + " | branch trail " + str(s2.trail[-5:])
+        n += 1
+        R.check(ok and cnt > 0, "LINE", "bound:%s:line%d" % (kind, (nd.get("loc") or [0])[0]), where(f, nd), "inside the line buffer for every formatted length (%d states)" % cnt,
+                "a write of the log line can leave the total_length bytes of its buffer: %s" % det)
+    R.require(n >= 7, "only %d line-buffer accesses analysed" % n)
+    # contiguity after each (v)snprintf + advance
+    for a in adv:
+        okc, det, cnt = True, "", 0
+        for st in sts.get(("after", a["id"]), []):
+            lw = st.notes.get("last_write")
+            if lw is None or lw[0] is None or lw[1] is None:
+                continue
+            dest, win, r, line = lw
+            if abs(line - a["loc"][0]) > 12:
+                continue
+            buf = [v for k, v in st.env.items() if k.endswith("log_line_buffer")]
+            cur = st.env.get("v:current_index")
+            if not buf or cur is None:
+                okc, det = False, "index not tracked"
+                continue
+            if entails(st, r + 1):  # a negative result is an error path
+                continue
+            i = dest - buf[0]
+            cnt += 1
+            if entails(st, win) and entails(st, -win):
+                want = i  # an empty window: nothing is written
+            elif entails(st, r - win + 1):
+                want = i + r
+            elif entails(st, win - r):
+                want = i + win - 1
+            else:
+                okc, det = False, "neither `fits` nor `truncated` is decided on a path (result %r, window %r)" % (r, win)
+                continue
+            if not (entails(st, cur - want) and entails(st, want - cur)):
+                okc, det = False, "after the write at line %d (start %r, window %r, result %r) the index is %r, not on the terminator %r" % (line, i, win, r, cur, want)
+        if cnt:
+            R.check(okc, "LINE", "contiguous:line%d" % a["loc"][0], "%s:%d in %s()" % (FILE, a["loc"][0], F), "the index lands on the terminator of the text just written in all %d states (no NUL inside the line, never past the window)" % cnt,
+                    "the log line can contain a NUL or skip bytes: %s" % det)
+    # reported length
+    okr, det, cnt = True, "", 0
+    for r in rets:
+        for st in sts.get(r["id"], []):
+            rv = num.val(r["a"][0], st)
+            if not (rv is not None and rv.is_const() and rv.cval() == 0):
+                continue
+            aw = [v for k, v in st.env.items() if k.endswith("amount_written")]
+            tot = [v for k, v in st.env.items() if k.endswith(")->total_length")]
+            cur = st.env.get("v:current_index")
+            cnt += 1
+            if len(aw) != 1 or len(tot) != 1 or cur is None or not (entails(st, aw[0] - cur - 1) and entails(st, cur + 1 - aw[0]) and entails(st, aw[0] - tot[0])):
+                okr, det = False, "amount_written %s, index %r, total %s" % (aw, cur, tot)
+    R.check(okr and cnt > 0, "LINE", "reported-length", "%s()" % F, "amount_written is the newline's index + 1 and at most total_length (%d success states)" % cnt, "the reported line length is wrong: %s" % det)
+    # the caller's buffer
+    g = P.fn("s_default_aws_log_formatter_format")
+    if R.require(g is not None, "s_default_aws_log_formatter_format not found"):
+        R.fn(g)
+
+        class CallerHooks(AwsHooks):
+            def call(self, num2, st, e, args):
+                c = e.get("callee") or ""
+                if c == "vsnprintf":
+                    return Poly.atom(num2.fresh(st, "needed", None, (-1, 2 ** 30)))
+                if c == "strlen":
+                    return Poly.atom(num2.fresh(st, "subject_len", None, (0, 2 ** 20)))  # ASSUMED: registered subject names are short
+                if c == F:
+                    fd = args[0]
+                    base = num2.base_of(st, fd) if fd is not None else None
+                    buf = st.env.get(base + "log_line_buffer") if base else None
+                    tot = st.env.get(base + "total_length") if base else None
+                    # the buffer is the flexible `bytes` member of the aws_string just allocated: room = allocation - offset
+                    rs = st.env.get("v:raw_string")
+                    ok = False
+                    if buf is not None and tot is not None and rs is not None and len(rs.t) == 1:
+                        ext = st.extent.get(list(rs.t)[0][0])
+                        off = num2.field_off({"rec": "aws_string", "f": "bytes"})
+                        ok = ext is not None and off is not None and entails(st, tot + off - ext) and entails(st, tot - 2 ** 32)
+                    num2.__dict__.setdefault("room", []).append((e, ok, repr(buf), repr(tot)))
+                    return Poly.atom(num2.fresh(st, "format", num2.ty(e)))
+                return AwsHooks.call(self, num2, st, e, args)
+        n2 = Num(g, P, CallerHooks(), max_paths=20000)
+        try:
+            n2.states_at({-1})
+        except Limit as ex:
+            R.broken(str(ex))
+        room = getattr(n2, "room", [])
+        R.check(bool(room) and all(ok for e, ok, b, t in room), "LINE", "room", where(g, room[0][0]) if room else g.name, "the formatter is handed a buffer of at least total_length bytes (%d states)" % len(room),
+                "the line buffer handed to the formatter is shorter than total_length: %s" % [(b, t) for e, ok, b, t in room if not ok][:2])
